@@ -50,6 +50,9 @@ func genBatch(r *Rng, cfg Config, alpha []BlkSpec, max int) []BlkSpec {
 func GenC04(seed uint64, run int) *Trace {
 	r := RunRng(seed, "C04", "session", run)
 	cfg := GenConfig(r, storeKindFor(r))
+	if r.Chance(1, 10) {
+		cfg.MaxSection = 200 // a small read-side section limit on a writable store
+	}
 	t := &Trace{Prop: "C04", Engine: "session", Seed: seed, Run: run, Cfg: cfg}
 	alpha := genAlphabet(r, r.Range(2, 6), r.Chance(1, 8))
 	n := r.Range(1, 30)
